@@ -65,6 +65,14 @@ class Probe:
         else:
             send(name, uid=self.uid, tag='t%d' % self.uid, delay=delay)
 
+    def anon(self, send, name, delay):
+        """an event without any distinguishing parameter: two of them compare equal"""
+        self.log.append(('anon', None, name, delay))
+        if delay is None:
+            send(name)
+        else:
+            send(name, delay=delay)
+
     def notify(self, notify, name):
         self.uid += 1
         self.log.append(('notify', self.uid, name))
